@@ -1049,13 +1049,53 @@ func vfC38RunCert(v *vfT, c vfC38CertCase) {
 	if !c.Generate && !cert.Expires().Equal(notAfter) {
 		v.Violation("C38/Certificate/expiry-differs", "Expires() %v, template NotAfter %v", cert.Expires(), notAfter)
 	}
+	// Negative control: "Equal to the original" only means something if Equals tells different
+	// certificates apart. Two certificates whose DER differs must not be Equals, whether the
+	// other one was issued for the same key (re-issued) or for another key.
+	tpl2 := tpl
+	tpl2.SerialNumber = new(big.Int).Add(tpl.SerialNumber, big.NewInt(1))
+	tpl2.Subject = pkix.Name{CommonName: c.CN + "-reissued"}
+	tpl2.Issuer = tpl2.Subject
+	issue := func(key crypto.PrivateKey) *Certificate {
+		var o *Certificate
+		var err error
+		if c.Generate {
+			o, err = GenerateCertificate(key)
+		} else {
+			o, err = NewCertificate(key, tpl2)
+		}
+		if err != nil || o == nil || o.x509Cert == nil || string(o.x509Cert.Raw) == string(cert.x509Cert.Raw) {
+			return nil
+		}
+		return o
+	}
+	if c.Serial%2 == 1 {
+		return // negative controls on half (same key) / a quarter (other key) of the cases keep the cost down
+	}
+	if o := issue(keys[ki]); o != nil {
+		if cert.Equals(*o) || o.Equals(*cert) || back.Equals(*o) || o.Equals(*back) {
+			v.Violation("C38/Certificate/equals-true-for-reissued-certificate", "two different certificates (different DER, serial, subject) issued for the same %s key are Equals(): orig.Equals(other)=%v other.Equals(orig)=%v reimported.Equals(other)=%v", vfC38KeyNames[ki], cert.Equals(*o), o.Equals(*cert), back.Equals(*o))
+		}
+		v.Label("negative-control:same-key-reissued")
+	}
+	kj := (ki + 1) % len(keys)
+	if c.Serial%4 != 0 {
+		return
+	}
+	if o := issue(keys[kj]); o != nil {
+		if cert.Equals(*o) || o.Equals(*cert) || back.Equals(*o) || o.Equals(*back) {
+			v.Violation("C38/Certificate/equals-true-for-different-key", "certificates for different keys (%s, %s) are Equals()", vfC38KeyNames[ki], vfC38KeyNames[kj])
+		}
+		v.Label("negative-control:different-key")
+	}
 }
 
 func TestVerif_C38_CertPEM(t *testing.T) {
 	vfProperty(t, "C38", vfOpts{
 		Rule: "one certificate (key from a pool of 3 P-256, P-384, P-521, RSA-2048 keys; NewCertificate with a generated template - serial, common name, NotAfter 1950..9999, validity - or GenerateCertificate) through PEM() and CertificateFromPEM; non-trivial = the certificate could be created",
 		Assumptions: []string{"key material comes from crypto/rand (generated once per process); the oracle does not depend on it",
-			"Ed25519 certificates (only constructible through CertificateFromX509) are counted, not asserted: Certificate.Equals has no Ed25519 case"},
+			"Ed25519 certificates (only constructible through CertificateFromX509) are counted, not asserted: Certificate.Equals has no Ed25519 case",
+			"negative control: certificates whose DER differs (re-issued for the same key, or for another key of the pool) must not be Equals(), otherwise the round-trip clause would be vacuous"},
 	}, func(v *vfT) vfC38CertCase {
 		c := vfC38CertCase{
 			Key:      rapid.IntRange(0, len(vfC38KeyNames)-1).Draw(v.R, "key"),
